@@ -83,12 +83,21 @@ func parseFloat32(s []byte) float32 {
 //
 // For example, roundUpTo(0.0001, 100) -> 0.01.
 func roundUpTo(value float32, granularity float64) float32 {
-	if value > 0 {
-		return float32(math.Ceil(float64(value)*granularity) / granularity)
-	} else if value < 0 {
-		return float32(math.Floor(float64(value)*granularity) / granularity)
+	if value == 0 {
+		return 0
 	}
-	return 0
+	scaled := float64(value) * granularity
+	// A float32 is usually not exactly the decimal it was written as
+	// (0.3 is 0.300000012...), so a value which already is a multiple of
+	// the granularity, to within float32 precision, must not be pushed
+	// up to the next multiple.
+	if r := math.Round(scaled); math.Abs(scaled-r) <= 1.2e-7*math.Abs(r) {
+		return float32(r / granularity)
+	}
+	if value > 0 {
+		return float32(math.Ceil(scaled) / granularity)
+	}
+	return float32(math.Floor(scaled) / granularity)
 }
 
 func unhex(c byte) byte {
